@@ -1842,6 +1842,12 @@ class Parallel(Logger):
                 self._nb_consumed += 1
                 yield result
 
+        # An error can be registered without anything left to wait for, e.g.
+        # when the input iterable raises after all the dispatched tasks have
+        # already completed: make sure it is raised in the caller.
+        if self._aborting:
+            self._raise_error_fast()
+
     def _raise_error_fast(self):
         """If we are aborting, raise if a job caused an error."""
 
